@@ -2412,6 +2412,7 @@ def legs_of(scen):
         for a in t.body:
             if a == "P": recs += "P"
             elif a == "AX": late += "F"
+            elif a in ("IA", "IP", "HP", "QI"): recs += ("P" if a == "QI" else "")
             elif a[0] in "FXY": recs += "F"
             elif a == "S": recs += "S"
             elif a[0] == "K": complete, sig = 0, 1; break
@@ -2454,6 +2455,7 @@ def check_C19(ctx):
         ("nested", S("top", items=[S("in1", items=[S("in2", items=[T("a", body=["P"])])]), T("b", body=["F", "P", "F"]), T("c", body=["P"])]), "b"),
         ("failing test last", S("top", items=[S("in1", items=[T("p", body=["P"])]), T("q", body=["P"]), T("z", body=["P", "F"])]), "z"),
         ("with a crashing test", S("top", items=[T("a", body=["P"]), T("b", body=["F", "K11"]), T("c", body=["F"])]), "c"),
+        ("the failing test ignores SIGPIPE (as network code does)", S("top", items=[T("a", body=["P"]), T("b", body=["IP", "P", "F", "P"]), T("c", body=["P"])]), "b"),
         ("more results than the channel holds", S("top", items=[T("big", body=["P"] * 4200 + ["F"]), T("after", body=["F"])]), "after"),
     ]
     configs = []
